@@ -60,32 +60,24 @@ Fixpoint toks_eqb (a : list token) (b : list (N * string)) : bool :=
   | _, _ => false
   end.
 
-(* the implementation's document consists of operation and fragment definitions only *)
-Definition impl_exec (g : gts) : bool :=
-  match g with
-  | Gs _ _ _ _ kids => forallb (fun k => match k with Gs t _ _ _ _ => (t =? 22) || (t =? 23) end) kids
-  end.
-
-(* How a disagreement is judged.  The model is proved sound for the whole grammar
-   (C03_parse_sound) and complete for executable documents (C03_parse_complete_partial):
-   - the model parses src to d, the implementation rejects: src is derivable, so the
-     implementation rejects a string of the grammar -> 2;
-   - the implementation accepts with an executable document g and the model rejects or
-     builds another document: were g derivable the model would return exactly g -> 2;
-   - the implementation accepts with a document containing type-system definitions and the
-     model disagrees: not covered by a completeness theorem yet -> 1. *)
+(* How a disagreement is judged.  The model is proved sound and complete for the whole grammar
+   (C03_parse_sound, C03_parse_complete) and never runs out of fuel (C03_parse_terminates), so it
+   decides the grammar:
+   - the model parses src to d, the implementation rejects: src is derivable -> 2;
+   - the implementation accepts and the model rejects: src is not derivable -> 2;
+   - both accept with different documents: the grammar assigns exactly d (C03_unambiguous) -> 2. *)
 Definition check_parse (src : bytes) (unchanged : bool) (impl : option gts) : N :=
     if negb unchanged then 2      (* "parsing does not modify the source it is given" *)
     else
       match parse src, impl with
-      | OutOfFuel, _ => 1
+      | OutOfFuel, _ => 1         (* unreachable: C03_parse_terminates *)
       | Err, None => 0
-      | Err, Some g => if impl_exec g then 2 else 1
+      | Err, Some g => 2
       | Ok _, None => 2
       | Ok (d, mb), Some g =>
         (* locations are compared unless a name token follows a multi-byte character in an
            ignored position (finding C18-mixed-offset-units: such names are reported in characters) *)
-        if gt_eqb (negb mb) (g_doc d) (conv g) then 0 else if impl_exec g then 2 else 1
+        if gt_eqb (negb mb) (g_doc d) (conv g) then 0 else 2
       end.
 
 Definition check (c : c03case) : N :=
